@@ -1,0 +1,9 @@
+//go:build verif
+
+// Contracts for package crypto, checked by /verif (bfvc). Comment-only.
+package crypto
+
+//@ func GenerateEd25519Key
+//@   noframe
+//@   ensures ret2 == nil ==> ret0 != nil && ret1 != nil
+//@   ensures ret2 != nil ==> ret0 == nil && ret1 == nil
